@@ -210,6 +210,17 @@ def check_points(q, r, ntheta, rng, bad, stats, label=''):
         e3 = max(e3, abs(Rm[0] - Rl[m + i]) / sc, abs(Zm[0] - Zl[m + i]) / sc, abs(float(wrap(ang[0] - Pl[m + i]))))
     if e3 > 1e-12:
         bad('to_RZ:points' + label, 'to_RZ at arbitrary (r, theta, phi0) differs from the own evaluation of r0 + X n + Y b + Z t by %.3g' % e3, r=r, ntheta=ntheta)
+    # the same point again after a full-surface computation at another radius in between (both use the object's scratch splines): same answer
+    try:
+        with np.errstate(all='ignore'):
+            a1 = [float(np.asarray(v).ravel()[0]) for v in q.to_RZ([pts[0]])]
+            q.Frenet_to_cylindrical(0.7 * r, ntheta=4)
+            a2 = [float(np.asarray(v).ravel()[0]) for v in q.to_RZ([pts[0]])]
+        n += 1
+        if max(abs(a1[0] - a2[0]), abs(a1[1] - a2[1])) > 1e-12 * sc or abs(float(wrap(a1[2] - a2[2]))) > 1e-12:
+            bad('to_RZ:repeat' + label, 'to_RZ at the same (r, theta, phi0) returns a different point after a Frenet_to_cylindrical call in between: (%.6g, %.6g) vs (%.6g, %.6g)' % (a1[0], a1[1], a2[0], a2[1]), r=r, ntheta=ntheta)
+    except Exception as e:
+        bad('to_RZ:exception' + label, 'to_RZ / Frenet_to_cylindrical raises %r' % (e,))
     return n, (R2, Z2, P0)
 
 
